@@ -50,6 +50,16 @@ fn rand_identity(r: &mut Rng) -> Identity {
     if (b >> 16) == 0x0800 || (b >> 16) == 0x86dd {
         b ^= 0x4000_0000;
     }
+    // loopback-style connections: both ends on one address, sometimes also on one port
+    let same_addr = r.chance(1, 8);
+    if same_addr {
+        b = a;
+    }
+    let s6 = unambiguous_v6(((r.next_u64() as u128) << 64) | r.next_u64() as u128);
+    let sp = r.u16();
+    if same_addr {
+        return Identity { v4: r.chance(2, 3), src4: Ipv4Addr::from(a), dst4: Ipv4Addr::from(b), src6: s6, dst6: s6, sport: sp, dport: if r.chance(1, 4) { sp } else { r.u16() } };
+    }
     Identity {
         v4: r.chance(2, 3),
         src4: Ipv4Addr::from(a),
@@ -218,6 +228,10 @@ fn history(ctx: &mut Ctx) {
     let runs = ctx.scale(1_600, 40_000, 2) / ctx.nshards as u64 + 1;
     let mut r = ctx.rng(1818);
     for run in 0..runs {
+        if ctx.rep.violation_count > 40 {
+            ctx.note("stopped early after more than 40 violations in this shard");
+            break;
+        }
         let kind = *r.pick(&[PoolKind::Tcp, PoolKind::Http, PoolKind::Tls]);
         let nframes = if ctx.miri() { 12 } else { 40 + r.usize(260) };
         let frames = history_frames(&mut r, kind, nframes);
@@ -271,7 +285,7 @@ fn history(ctx: &mut Ctx) {
         let outcomes: Vec<(u64, bool)> = outcomes.lock().map(|o| o.clone()).unwrap_or_default();
         let queued: HashSet<u64> = outcomes.iter().filter(|o| o.1).map(|o| o.0).collect();
         let dropped: HashSet<u64> = outcomes.iter().filter(|o| !o.1).map(|o| o.0).collect();
-        let drained = pool::wait_processed(queued.len() as u64, Duration::from_secs(30));
+        let drained = h.wait_drain(queued.len() as u64, Duration::from_secs(30)) != pool::Drain::Stalled;
         // linger briefly: a frame processed twice or a dropped frame being processed would show up
         std::thread::sleep(Duration::from_millis(3));
         let stats = h.stats();
@@ -401,6 +415,15 @@ pub fn run(ctx: &mut Ctx) {
     history(ctx);
 }
 
+/// thorough tier only: sanitizer / interpreter stages, run once in the parent
+fn sanitizers(ctx: &mut Ctx) {
+    if !ctx.thorough() {
+        return;
+    }
+    crate::rt::tsan_stage(ctx, 900);
+    crate::rt::miri_stage(ctx, "-Zmiri-many-seeds=0..3", 3000);
+}
+
 pub fn spec() -> PropSpec {
     PropSpec {
         id: "C18",
@@ -413,6 +436,6 @@ pub fn spec() -> PropSpec {
             "loopback (NULL) framing is outside the property's quantifier (Ethernet or raw)",
             "dispatch calls racing with shutdown are outside the property ('before shutdown')",
         ],
-        parent_stage: None,
+        parent_stage: Some(sanitizers),
     }
 }
